@@ -125,6 +125,27 @@ Theorem C15_hypotheses_decided :
 Proof. exact hyps_ok_sound. Qed.
 Print Assumptions C15_hypotheses_decided.
 
+(* positive semi-definiteness, the last hypothesis of the maximality clause, is also decided per instance: the model
+   eliminates symmetrically, CHECKS P = U^T diag(1/u_kk) U exactly and u_kk > 0, and that certificate implies v^T P v >= 0 *)
+Theorem C15_psd_certificate :
+  forall (n : nat) (P : list (list Qc)), psd_cert n P = true -> forall v, length v = n -> 0 <= qdot v (qmatvec P v).
+Proof. exact psd_cert_sound. Qed.
+Print Assumptions C15_psd_certificate.
+
+(* hence, on every closed-form case on which the harness's check_mode_hyps evaluates to true (all value cases of the
+   identity-like geometries), with NO further assumption: the returned x has zero posterior gradient and no point has
+   larger posterior density, for the checked inverses Pe, Px of the covariances meant by the user *)
+Theorem C15_mode_decided :
+  forall (fixed : bool) (m n : nat) (A : list (list Qc)) (b x0 : list Qc) (ce cx : covform) (x : list Qc),
+  mode_hyps_ok m n A b ce cx = true ->
+  cov_guard fixed ce cx ->
+  map_direct fixed m n A b x0 (Some ce) (Some cx) = Val x ->
+  exists Pe Px, qinv (dense_of true m ce) = Some Pe /\ qinv (dense_of true n cx) = Some Px /\
+    post_grad n A Pe Px b x0 x = qvzero n /\
+    forall y, length y = n -> post_q A Pe Px b x0 x <= post_q A Pe Px b x0 y.
+Proof. exact mode_decided. Qed.
+Print Assumptions C15_mode_decided.
+
 (* symmetry of a precision in the sense used above is decidable by computation: P^T = P suffices *)
 Theorem C15_symmetric_by_transpose :
   forall (k : nat) (P : list (list Qc)), wf_mat k P -> qtranspose k P = P -> q_sym k P.
